@@ -79,6 +79,7 @@ input Box {
   d: [Int]
   name: String = "box"
   inner: Box
+  fixed: [Float!]
 }
 
 interface Node {
@@ -249,6 +250,8 @@ type BoxIn struct {
 	D     []int
 	Name  string
 	Inner *BoxIn
+	// Fixed is a Go ARRAY behind a list-typed input field: ggql fills slices, an array is none
+	Fixed [2]float64
 }
 
 // Box takes a registered input type.
